@@ -246,6 +246,36 @@ func genRDPkg(t *rapid.T, idx int) rdPkg {
 					ty.Fields[i].EmbedDoc = ""
 				}
 			}
+			// an own exported field with the name of a field of an embedded covered struct: the own field answers
+			if ty.Kind == "struct" && rapid.IntRange(0, 2).Draw(t, "shadow") == 0 {
+				for _, f := range ty.Fields {
+					if f.Embed == "" {
+						continue
+					}
+					e := p.typeByName(f.Embed)
+					if e == nil {
+						continue
+					}
+					var names []string
+					for _, ef := range e.Fields {
+						if ef.Embed == "" && ef.Listed && exportedName(ef.Name) {
+							names = append(names, ef.Name)
+						}
+					}
+					if len(names) == 0 {
+						continue
+					}
+					n := rapid.SampledFrom(names).Draw(t, "shadowname")
+					own := false
+					for _, of := range ty.Fields {
+						own = own || of.Name == n || of.Also == n
+					}
+					if !own {
+						ty.Fields = append(ty.Fields, rdField{Name: n, Type: "int", Listed: true, Doc: genDoc(t, n, false)})
+					}
+					break
+				}
+			}
 			if ty.Kind == "struct" && len(opaque) > 0 && rapid.IntRange(0, 3).Draw(t, "opaquefirst") == 0 {
 				// a struct without exported field embedded ahead of everything else (by value or by pointer)
 				o := rapid.SampledFrom(opaque).Draw(t, "opaqueembed")
